@@ -849,6 +849,149 @@ def gen_numeric_history(rng, length):
     return [("expr", ("raw", t)) for t in hist]
 
 
+# ---------------------------------------------------------------- which names may a statement assign?
+
+def base_of(name):
+    return str(name).split("`")[0]
+
+
+def expr_assigns(e, fdefs, depth=0):
+    """bases a model-grammar expression may assign when evaluated (None: unknown)"""
+    k = e[0]
+    if k == "raw":
+        return set(e[2]) if len(e) > 2 and e[2] is not None else None
+    if k in ("lit", "dlit", "var", "fn"):
+        return set()
+    if k == "assign":
+        r = expr_assigns(e[2], fdefs, depth)
+        return None if r is None else r | {e[1]}
+    if k == "call":
+        r = expr_assigns(e[2], fdefs, depth)
+        if r is None or depth > 6:
+            return None
+        for body in fdefs.get(e[1], []):
+            rb = expr_assigns(body, fdefs, depth + 1)
+            if rb is None:
+                return None
+            r |= rb
+        return r
+    out = set()
+    for sub in e[2:] if k in ("op1", "op2") else e[1:]:
+        if isinstance(sub, tuple):
+            r = expr_assigns(sub, fdefs, depth)
+            if r is None:
+                return None
+            out |= r
+    return out
+
+
+def stmt_assigns(st, fdefs):
+    if st[0] == "module":
+        return set() if st[1] is None else {st[1]}
+    return expr_assigns(st[1], fdefs)
+
+
+def note_definitions(st, fdefs):
+    """remember function bodies bound by `f::{...}` (every definition of a base name is kept: conservative)"""
+    if st[0] == "expr":
+        e = st[1]
+        while e[0] == "assign":
+            if e[2][0] == "fn":
+                fdefs.setdefault(e[1], []).append(e[2][1])
+            e = e[2]
+
+
+# local declarations in both spellings, colliding with globals (oracles only; the third member of a raw node
+# lists the names the statement is allowed to assign)
+LOCAL_DECLS = ['[{0}]', '[{0} {1}]', '[{0};{1}]', '[{0} {1} {2}]', '[{0};{1};{2}]', '[{0};{1} {2}]', '[{1};{0}]']
+
+
+def gen_locals_history(rng, length):
+    names = ["a", "b", "c", "d"]
+    hist = [(f"{w}::{rng.choice(['100', '[7 8 9]', '5', '\"gl\"'])}", [w]) for w in names]
+    fglob = {"f": set(), "g": set()}        # globals a call of f / g may assign
+    for _ in range(length):
+        r = rng.random()
+        if r < 0.35:
+            fn = rng.choice(["f", "g"])
+            loc = rng.sample(names, 3)
+            decl = rng.choice(LOCAL_DECLS).format(*loc)
+            declared = [n for n in loc if n in decl.replace("[", " ").replace("]", " ").replace(";", " ").split()]
+            steps, assigned = [], set()
+            for n in rng.sample(declared, rng.randrange(1, len(declared) + 1)):
+                steps.append(f"{n}::{rng.choice(['x*2', 'x+1', '[1 2]', 'x'])}")
+                assigned.add(n)
+            glob = set()
+            if rng.random() < 0.3:
+                gname = rng.choice([n for n in names if n not in declared] or names)
+                if gname not in declared:
+                    steps.append(f"{gname}::x")
+                    glob.add(gname)
+            if fn == "g" and rng.random() < 0.4:
+                steps.append("f(x)")
+                glob |= fglob["f"]
+            ret = rng.choice(declared + ["x"])
+            text = fn + "::{" + decl + ";" + ";".join(steps + [ret]) + "}"
+            fglob[fn] = fglob[fn] | glob      # every definition so far (a stale parse must not matter)
+            hist.append((text, [fn]))
+        elif r < 0.75:
+            fn = rng.choice(["f", "g"])
+            arg = rng.choice(["5", "2", "a", "b", "[1 2 3]"])
+            allowed = set(fglob[fn]) | (fglob["f"] if fn == "g" else set())
+            if rng.random() < 0.4:
+                tgt = rng.choice(names)
+                hist.append((f"{tgt}::{fn}({arg})", sorted(allowed | {tgt}), (fn, tgt)))
+            else:
+                hist.append((f"{fn}({arg})", sorted(allowed), (fn, None)))
+        elif r < 0.85:
+            w = rng.choice(names)
+            hist.append((f"{w}::{rng.choice(['100', '[7 8 9]', '1'])}", [w]))
+        elif r < 0.93:
+            hist.append((rng.choice(names), []))
+        else:
+            h = rng.choice(hist)
+            if len(h) > 2:        # a repeated call: what it may assign is decided by the definitions of NOW
+                fn, tgt = h[2]
+                al = set(fglob[fn]) | (fglob["f"] if fn == "g" else set()) | ({tgt} if tgt else set())
+                h = (h[0], sorted(al), h[2])
+            hist.append(h)
+    return [("expr", ("raw", h[0], h[1])) for h in hist]
+
+
+def gen_module_history(rng, length):
+    """open, define, close, define same-named globals, re-open the same module, close, read (model grammar)"""
+    names = ["a", "b"]
+    hist = []
+    if rng.random() < 0.6:
+        # module defines a private name; a global of that name after the module is closed; the module re-opened
+        m, n = rng.choice(["m1", "m2"]), rng.choice(names)
+        hist += [("module", m), ("expr", assign(n, lit_int(1)))]
+        if rng.random() < 0.5:
+            hist.append(("expr", assign("f", ("fn", op2("arith:plus", var("x"), var(n))))))
+        hist += [("module", None), ("expr", assign(n, lit_int(50))), ("expr", var(n)), ("module", m)]
+        if rng.random() < 0.6:
+            hist.append(("module", None))
+        hist.append(("expr", var(n)))
+    for _ in range(length):
+        r = rng.random()
+        if r < 0.34:
+            opened = [h for h in hist if h[0] == "module"]
+            is_open = bool(opened) and opened[-1][1] is not None
+            if is_open and rng.random() < 0.85:
+                hist.append(("module", None))
+            else:
+                hist.append(("module", rng.choice(["m1", "m1", "m1", "m2"])))
+        elif r < 0.62:
+            hist.append(("expr", assign(rng.choice(names), lit_int(rng.choice([1, 7, 50, 3])))))
+        elif r < 0.70:
+            hist.append(("expr", assign("f", ("fn", rng.choice([op2("arith:plus", var("x"), var("a")), op2("arith:plus", var("x"), var("b"))])))))
+        elif r < 0.78:
+            hist.append(("expr", call("f", lit_int(1))))
+        else:
+            hist.append(("expr", var(rng.choice(names))))
+    return hist
+
+
 def scripted_histories():
     """hand-made histories the property description names"""
     A_ = lambda n, e: ("expr", assign(n, e))
@@ -925,6 +1068,16 @@ def scripted_histories():
                 R_('g::{$x*y}'), R_('g("ab";2)'), R_('g(10000000000;10000000000)')])
     out.append([R_('a::[3 5]@0;b::2'), R_(',a*b'), R_('a::10000000000;b::a'), R_(',a*b'), R_('$a+b'),
                 R_('b::"ab"'), R_('$a+b'), R_('b::4611686018427387904;a::b'), R_('$a+b'), R_(',a*b')])
+    # a function that declares a name local (either spelling) must not assign the outer variable of that name
+    L_ = lambda t, al: ("expr", ("raw", t, al))
+    out.append([L_('a::100', ['a']), L_('b::[7 8 9]', ['b']), L_('f::{[a b];a::x*2;b::a+1;b}', ['f']),
+                L_('g::{[a;b];a::x*2;b::a+1;b}', ['g']), L_('f(5)', []), L_('a', []), L_('b', []), L_('g(5)', []),
+                L_('a', []), L_('b', []), L_('c::g(2)', ['c']), L_('a', [])])
+    # re-opening a module must not change what a name evaluates to
+    out.append([("module", "m1"), A_("b", lit_int(1)), A_("f", ("fn", op2("arith:plus", var("x"), var("b")))), ("module", None), A_("b", lit_int(50)),
+                E_(var("b")), ("module", "m1"), ("module", None), E_(var("b")), A_("b", lit_int(7)), E_(var("b")),
+                ("module", "m1"), E_(var("b")), A_("g", ("fn", op2("arith:times", var("x"), lit_int(2)))), ("module", None),
+                E_(var("b")), E_(call("f", lit_int(0)))])
     # a failing statement must not leave process-wide numeric state behind (overflow -> inf, not an error)
     out.append([R_('a::[1e308 1.0]'), R_('a*10'), R_('a+a'), R_('1e308*10'), R_('"a"^2'), R_('a*10'), R_('b::qq^2'),
                 R_('a+a'), R_('[1 2 3]^[1 2]'), R_('1e308*10'), R_('a^2'), R_('1%0'), R_('10^400')])
@@ -978,6 +1131,9 @@ def _run_history(ctx, stmts, drv, label, probes):
     clean = True
     pending = None
     probe_base = run_probes() if probes else None
+    fdefs = {}
+    seen_resolution = {}
+    nested_open = False
     for i, st in enumerate(stmts):
         text = stmt_text(st)
         case = dict(kind=label, history=[json_stmt(s) for s in stmts[:i + 1]], texts=[stmt_text(s) for s in stmts[:i + 1]])
@@ -986,6 +1142,13 @@ def _run_history(ctx, stmts, drv, label, probes):
         C._parse_cache.clear()
         C._compiled_cache.clear()
         strip_memos(C)
+        allowed = stmt_assigns(st, fdefs)
+        note_definitions(st, fdefs)
+        if A._module is not None and ".module(:" in text:
+            # a module opened inside another one is named "m`n" at run time and no longer matches its own
+            # qualified names: what names resolve to then is a quirk of unsupported nesting, not judged here
+            nested_open = True
+        sA_pre = snapshot(A)
         g0 = process_state()
         oA = execute(A, text)
         g1 = process_state()
@@ -1015,6 +1178,50 @@ def _run_history(ctx, stmts, drv, label, probes):
                                     f"`{t}` in a brand-new interpreter with the same values gives a different outcome "
                                     "after this history than before it")
                     return False
+        # ---- oracle 5: only the names the program assigns may change (dictionaries are shared objects; reading an
+        #      undefined name binds it to itself; `x` lives in call frames)
+        if allowed is not None:
+            for name in sorted(set(sA_pre) | set(sA), key=qkey):
+                b = base_of(name)
+                if b in allowed or b == "x":
+                    continue
+                v0, v1 = sA_pre.get(name), sA.get(name)
+                if v0 is not None and v0[0] == "D":
+                    continue
+                if v0 is None and v1 == ("y", name):
+                    continue
+                if v0 is None or v1 is None or not veq(v0, v1):
+                    ctx.oracle_fail(f"assigns-other-variable:{verb}", dict(case, variable=name, may_assign=sorted(allowed)),
+                                    "unchanged: " + (fmt(v0) if v0 else "undefined"), fmt(v1) if v1 else "undefined",
+                                    f"the statement changed `{name}`, which it does not assign (a name declared local "
+                                    "in a function, or untouched by the text)")
+                    return False
+        # ---- oracle 6: what a name evaluates to (under the same parse-time module) changes only if a variable of
+        #      that name was assigned in between
+        M = None if A._module is None else str(A._module)
+        res = {}
+        for n in NAMES:
+            if n == "x" or n in MODS:       # call-frame argument; module-name symbols bind to themselves per module
+                continue
+            try:
+                from klongpy.core import KGSym
+                res[n] = canon(A._context[KGSym(n if M is None else f"{n}`{M}")])
+            except KeyError:
+                res[n] = ("U",)
+        if M in seen_resolution and not nested_open:
+            old_res, old_snap = seen_resolution[M]
+            for n in res:
+                if veq(res[n], old_res[n]) or res[n][0] == "D":
+                    continue
+                touched = any(base_of(k) == n and (k not in old_snap or k not in sA or not veq(old_snap[k], sA[k]))
+                              for k in set(old_snap) | set(sA))
+                if not touched:
+                    ctx.oracle_fail(f"resolution-changed:{verb}", dict(case, name=n, module=M or "-"),
+                                    fmt(old_res[n]), fmt(res[n]),
+                                    f"`{n}` evaluates to a different value than the last time the interpreter was in "
+                                    "this module, although no variable of that name was assigned in between")
+                    return False
+        seen_resolution[M] = (res, sA)
         # ---- oracle 3: a verb wrote into an array that a variable or a cached tree holds
         if oA[0] == "err" and "read-only" in str(oA[2]):
             ctx.oracle_fail(f"writes-argument:{verb}", case, "no write to an existing array",
@@ -1144,7 +1351,8 @@ def run(ctx):
                 "numpy-scalar and string operands; statements failing inside arithmetic verbs followed by overflow / underflow / "
                 "divide-by-zero / invalid probes, with process-global numeric state (np.geterr, print options, decimal "
                 "context, torch defaults) snapshotted around every statement and probe texts compared before/after in "
-                "brand-new interpreters); each statement re-run in a fresh interpreter loaded with a copy of the pre-state and in a "
+                "brand-new interpreters; functions with local declarations in both spellings whose names collide with globals; "
+                "module open / define / close / same-named global / re-open / read histories); each statement re-run in a fresh interpreter loaded with a copy of the pre-state and in a "
                 "cache-cleared interpreter; distinct = distinct histories; non-trivial = at least two statements")
     ctx.assumptions += [
         "Python-side mutation of arrays obtained through klong[name] is outside the property",
@@ -1177,6 +1385,13 @@ def run(ctx):
             run_history(ctx, h, None, "history-twin")
             if s < 2:
                 ctx.sample(dict(kind="history-twin", texts=[stmt_text(x) for x in h]))
+        for s in range(120 if quick else 2000):
+            h = gen_locals_history(ctx.rng, ctx.rng.randrange(4, 10 if quick else 14))
+            run_history(ctx, h, None, "history-locals")
+            h = gen_module_history(ctx.rng, ctx.rng.randrange(6, 12 if quick else 18))
+            run_history(ctx, h, drv, "history-module")
+            if s < 1:
+                ctx.sample(dict(kind="history-locals", texts=[stmt_text(x) for x in h]))
         for s in range(100 if quick else 1500):
             h = gen_numeric_history(ctx.rng, ctx.rng.randrange(4, 10 if quick else 14))
             run_history(ctx, h, None, "history-numeric", probes=True)
